@@ -186,7 +186,11 @@ def evaluate_hist(repo: Path):
         for i in range(100):
             c4.run(i)
         default_len = len(c4.get_history())
-        return finals, after_par, after_run, kept_when_raising, empty_nothing, slices, default_len
+        def counters(x):
+            g = x.get_statistics()
+            return (int(g["runs_count"]), int(g["successful_runs"]), int(g["failed_runs"]))
+        stats = [counters(c), counters(c2), counters(c3)]
+        return finals, after_par, after_run, kept_when_raising, empty_nothing, slices, default_len, stats
     except Exception:
         return None
 
@@ -290,10 +294,12 @@ def render(rows, mapk=None, hist=None, agent=None) -> str:
         attrs, mrows = mapk
         mapk_s = ("some ([" + ", ".join(f"({b(g)}, {a}, {b(r)}, {b(h)})" for (g, a, r, h) in attrs) + "], ["
                   + ", ".join(f"({k}, {a}, {g}, {pc})" for (k, a, g, pc) in mrows) + "])")
+    stats_s = "none"
     if hist is None:
         hist_s = "none"
     else:
-        finals, after_par, after_run, kept, empty_nothing, slices, default_len = hist
+        finals, after_par, after_run, kept, empty_nothing, slices, default_len, stats = hist
+        stats_s = "some [" + ", ".join(f"({a}, {b_}, {c})" for (a, b_, c) in stats) + "]"
         hist_s = ("some ([" + ", ".join(map(str, finals)) + f"], {after_par}, {after_run}, {b(kept)}, {b(empty_nothing)}, ["
                   + ", ".join(f"(({k} : Int), [" + ", ".join(map(str, o)) + "])" for k, o in slices) + f"], {default_len})")
     if agent is None:
@@ -326,6 +332,10 @@ def mapkFacts : Option (List (Bool Ã— Nat Ã— Bool Ã— Bool) Ã— List (Nat Ã— Nat Ã
     failed fork of an empty cascade records nothing, final outputs handed out by get_history(k) on the five-record history
     0..4 for k = -7..7, number of records handed out by get_history() on a 105-record history) -/
 def histFacts : Option (List Nat Ã— Nat Ã— Nat Ã— Bool Ã— Bool Ã— List (Int Ã— List Nat) Ã— Nat) := {hist_s}
+
+/-- `get_statistics()` of the three cascades driven for `histFacts` (the 1005 + fork + 1 runs, the run whose completion observer
+    raised, the fork of an empty cascade): (runs_count, successful_runs, failed_runs) -/
+def statFacts : Option (List (Nat Ã— Nat Ã— Nat)) := {stats_s}
 
 /-- `AgentCascade.add_agent_stage` evaluated with a stub agent class: (0 run / run_parallel / get_history are the inherited ones,
     1 the checkpoint handed in is the stage's gate, 2 none handed in: ungated, 3 no error handler, 4 required, 5 the agent is
